@@ -23,6 +23,8 @@ CONSTANTS
     DevVals = {"*"}
     PresentBudget = 1
     BurstN = 0
+    PressMax = 0
+    TouchOn = {}
     Mode = "mc"
     Depth = 0
 VIEW View
